@@ -111,15 +111,38 @@ type c04Snap struct {
 }
 
 func c04Snapshot(db *dbdrv.DB, schema int) (*c04Snap, error) {
+	return c04SnapshotOrdered(db, schema, false)
+}
+
+// c04SnapshotOrdered runs the probes (probe p with the memstore at index 2p, without at 2p+1); reversed changes the
+// order in which they are issued, not where their results are stored.
+func c04SnapshotOrdered(db *dbdrv.DB, schema int, reversed bool) (*c04Snap, error) {
 	s := &c04Snap{key: db.StateKey()}
-	for _, p := range c04Probes(schema) {
-		for _, mem := range []bool{true, false} {
-			r, err := db.Query(p, mem)
-			if err != nil {
-				return nil, fmt.Errorf("%s: %v", p, err)
-			}
-			s.probes = append(s.probes, fmt.Sprintf("%s mem=%v\n%s", p, mem, r.String()))
+	ps := c04Probes(schema)
+	s.probes = make([]string, 2*len(ps))
+	type slot struct {
+		p   int
+		mem bool
+	}
+	var order []slot
+	for i := range ps {
+		order = append(order, slot{i, true}, slot{i, false})
+	}
+	if reversed {
+		for i, j := 0, len(order)-1; i < j; i, j = i+1, j-1 {
+			order[i], order[j] = order[j], order[i]
 		}
+	}
+	for _, o := range order {
+		r, err := db.Query(ps[o.p], o.mem)
+		if err != nil {
+			return nil, fmt.Errorf("%s: %v", ps[o.p], err)
+		}
+		idx := 2 * o.p
+		if !o.mem {
+			idx++
+		}
+		s.probes[idx] = fmt.Sprintf("%s mem=%v\n%s", ps[o.p], o.mem, r.String())
 	}
 	return s, nil
 }
@@ -177,6 +200,24 @@ func c04Run(c *fw.Ctx, cs c04Case) {
 	if err != nil {
 		c.Violate("C04", "probe-error", err.Error(), cs)
 		return
+	}
+	// The baseline is itself made of queries. A second, fresh instance of the same state answers the probes in the
+	// opposite order (disk-only ones first): if a probe changed what a later probe returns, the two baselines differ.
+	if db2 := c04Build(c, cs); db2 != nil {
+		other, err := c04SnapshotOrdered(db2, cs.Schema, true)
+		dir2 := db2.Dir
+		db2.Close()
+		removeDir(dir2)
+		if err != nil {
+			c.Violate("C04", "probe-error", err.Error(), cs)
+			return
+		}
+		for i := range before.probes {
+			if before.probes[i] != other.probes[i] {
+				c.Violate("C04", "probe-depends-on-earlier-probes", fmt.Sprintf("the same probe on two fresh instances of the same state, issued after different earlier probes:\nissued after the memstore-inclusive probes: %s\nissued first: %s", before.probes[i], other.probes[i]), cs)
+				return
+			}
+		}
 	}
 	queries := c04Queries(cs.Schema)
 	mems := []bool{true, false}
@@ -275,7 +316,7 @@ func init() {
 	fw.Register(&fw.Prop{
 		ID:          "C04",
 		Level:       "model_checking",
-		Rule:        "storage states = distinct VerifDump keys reached by insert histories (all pairs, plus 16 / all triples, over the C03 alphabet) × placements {memory, disk, split, split+restart}, schemas {t1, tp}; on each state the whole query alphabet (48 t1 queries / 12 tp queries: select lists, derived and PERCENTILE-wrapping fields, absolute/relative/unaligned ASOF/UNTIL incl. ranges ending before the newest period, GROUP BY subsets, period multiples, STRIDE, SHIFT, CROSSHIFT, CROSSTAB(T), HAVING, WHERE, IN- and FROM-subqueries, ORDER/LIMIT) × includeMemStore {true,false}; oracle: decoded file+memstore bytes and 2 probe queries (with and without memstore) identical after each query, probes identical again after the next flush; thorough adds ordered pairs (Q1;Q2) on fresh instances; non-trivial = query that returned rows",
+		Rule:        "storage states = distinct VerifDump keys reached by insert histories (all pairs, plus 16 / all triples, over the C03 alphabet) × placements {memory, disk, split, split+restart}, schemas {t1, tp}; on each state the whole query alphabet (48 t1 queries / 12 tp queries: select lists, derived and PERCENTILE-wrapping fields, absolute/relative/unaligned ASOF/UNTIL incl. ranges ending before the newest period, GROUP BY subsets, period multiples, STRIDE, SHIFT, CROSSHIFT, CROSSTAB(T), HAVING, WHERE, IN- and FROM-subqueries, ORDER/LIMIT) × includeMemStore {true,false}; oracle: decoded file+memstore bytes and 2 probe queries (with and without memstore) identical after each query, the baseline probes identical to those of a second fresh instance that issues them in the opposite order, probes identical again after the next flush; thorough adds ordered pairs (Q1;Q2) on fresh instances; non-trivial = query that returned rows",
 		Assumptions: []string{"walking the alphabet on one instance is sound because the byte-level state is verified unchanged after every query"},
 		Shards:      func(tier string) int { return 16 },
 		Budget: func(tier string) time.Duration {
